@@ -85,6 +85,9 @@ def run(ctx):
     # many distinct presence patterns in one run (six parameters: 64 patterns), long enough to return to early patterns after dozens of others
     sp.run_histories(ctx, rng, 6 if quick else 60, lambda r: [family.draw_group(r, "m6p", filt=True, mom=True)], 90 if quick else 150, (), (), owns,
                      "mask_mechanism_many_patterns", flip=0.9)
+    # a group with more than 64 blocks whose pattern changes only among the last blocks
+    sp.run_histories(ctx, rng, 3 if quick else 30, lambda r: [family.draw_group(r, "wide", filt=True, mom=True, freq=r.choice([1, 2]))],
+                     8 if quick else 14, (), (), owns, "mask_mechanism_wide_group", flip=0.9)
     sp.run_repo_tests(ctx, owns, "mask_mechanism_repo_tests")
     ctx.put("distinct_nontrivial", sp.nontrivial_count(tasks))
     ctx.put("rule", "MC: every gradient-presence history x hyper schedule (momentum / beta1 set to 0 and back) x fault script within the "
